@@ -117,7 +117,9 @@ func (wtr *XMLWtr) container(lvl int) node.Node {
 		if l, listable := hnd.Val.(val.Listable); listable {
 			ns = wtr.changedXmlns(r.Path)
 			for i := 0; i < l.Len(); i++ {
-				wtr.writeLeafElement(ns, r.Path, l.Item(i))
+				if err = wtr.writeLeafElement(ns, r.Path, l.Item(i)); err != nil {
+					return err
+				}
 			}
 		} else {
 			if lvl == 0 && first {
@@ -125,7 +127,9 @@ func (wtr *XMLWtr) container(lvl int) node.Node {
 			} else {
 				ns = wtr.changedXmlns(r.Path)
 			}
-			wtr.writeLeafElement(ns, r.Path, hnd.Val)
+			if err = wtr.writeLeafElement(ns, r.Path, hnd.Val); err != nil {
+				return err
+			}
 		}
 
 		return nil
@@ -230,13 +234,14 @@ func (wtr *XMLWtr) endContainer(ident string) (err error) {
 }
 
 func (wtr *XMLWtr) writeLeafElement(attibute string, p *node.Path, v val.Value) error {
-	var err error
 	stringValue, err := wtr.getStringValue(p, v)
+	if err != nil {
+		// no element with content the value does not have
+		return err
+	}
 	ident := p.Meta.(meta.Identifiable).Ident()
 	test := xml.StartElement{Name: xml.Name{Local: ident, Space: attibute}}
-	xml.NewEncoder(wtr._out).EncodeElement(stringValue, test)
-
-	return err
+	return xml.NewEncoder(wtr._out).EncodeElement(stringValue, test)
 }
 
 func (wtr *XMLWtr) getStringValue(p *node.Path, v val.Value) (string, error) {
